@@ -325,6 +325,8 @@ func run(sel int, in []int64) []int64 {
 			return []int64{milliOf(q), 0, 0}
 		}
 		return []int64{milliOf(q), 1, int64(back)}
+	case 15:
+		return runCloneMutate(in)
 	case 14:
 		// float64 arithmetic of the real Resource fields on integer-valued operands (x, y):
 		// s = x + y through Add, s - y through SubWithoutAssert, s.LessEqual(s, Zero)
@@ -502,6 +504,8 @@ func laws(sel int, in, got []int64, law func(lsel int, lin []int64, sig string))
 		g := append([]int64{}, got[1:1+l1]...)
 		g = append(g, got[2+l1:]...)
 		law(107, append(append([]int64{}, in...), g...), "")
+	case 15:
+		lawsCloneMutate(in, law)
 	case 7:
 		lawsNewResource(in, law)
 	case 8:
@@ -519,6 +523,11 @@ func laws(sel int, in, got []int64, law func(lsel int, lin []int64, sig string))
 		S := A.Clone().SubWithoutAssert(rr)
 		B := rr.Clone().Add(r)
 		law(110, cat(encRes(r), encRes(rr), encRes(A), encRes(S), encRes(B)), "")
+		{
+			S2 := r.Clone().SubWithoutAssert(rr)
+			B2 := S2.Clone().Add(rr)
+			law(119, cat(encRes(r), encRes(rr), encRes(S2), encRes(B2)), "")
+		}
 		lenZ, _ := r.LessEqualWithResourcesName(rr, api.Zero)
 		lenI, _ := r.LessEqualWithResourcesName(rr, api.Infinity)
 		gpZ, _ := r.GreaterPartly(rr, api.Zero)
@@ -594,6 +603,18 @@ func gen(rng *vh.Rng, n int, emit func(id string, sel int, in []int64, kind stri
 		}
 		for i := 0; i < n/2+1; i++ {
 			emit(fmt.Sprintf("dra-ops-%d", i), 6, genDRAOps(r), "dra_resource/add_sub_clone", true, nil)
+		}
+	}
+	// clones share no storage: clone a DRAResource (directly and through TaskInfo.Clone), mutate the clone with
+	// Add / Sub, observe the source; capacities int64-backed and big-decimal-backed
+	for i, in := range directedCloneMutate() {
+		emit(fmt.Sprintf("clone-mutate-directed-%d", i), 15, in, "dra_clone_then_mutate/directed", true, nil)
+	}
+	{
+		r := rng.Fork()
+		for i := 0; i < n/4+1; i++ {
+			in := genCloneMutate(r)
+			emit(fmt.Sprintf("clone-mutate-%d", i), 15, in, "dra_clone_then_mutate", in[1] > 0, nil)
 		}
 	}
 	// the scheduler cache building TaskInfo.DRAResreq from ResourceClaims
